@@ -15,6 +15,7 @@ import re
 import struct
 import sys
 from concurrent.futures import ProcessPoolExecutor
+import decimal
 from decimal import Decimal
 from fractions import Fraction
 
@@ -72,6 +73,85 @@ def f32_bits(text):
             return sign | 0x7F800000
         return sign | (ef << 23) | (m - (1 << 23))
     return sign | m  # subnormal
+
+
+# libc's own strtof/strtod (no phosg involved) as a self-check of the exact arithmetic above: a disagreement makes the
+# run inconclusive, it never decides a verdict.
+try:
+    import ctypes
+    _libc = ctypes.CDLL(None)
+    _libc.strtof.restype = ctypes.c_float
+    _libc.strtof.argtypes = [ctypes.c_char_p, ctypes.c_void_p]
+    _libc.strtod.restype = ctypes.c_double
+    _libc.strtod.argtypes = [ctypes.c_char_p, ctypes.c_void_p]
+except Exception:  # pragma: no cover
+    _libc = None
+
+
+def libc_selfcheck(lit, dbl):
+    if _libc is None:
+        return
+    if dbl:
+        got = struct.pack("<d", _libc.strtod(lit.encode(), None))
+        want = f64_bytes(lit, False)
+    else:
+        got = struct.pack("<f", _libc.strtof(lit.encode(), None))
+        want = f32_bits(lit).to_bytes(4, "little")
+    if got != want:
+        raise OracleError("reference rounding of %r (%s) is %s but libc gives %s" % (lit, "double" if dbl else "float", want.hex(), got.hex()))
+
+
+_BIGCTX = decimal.Context(prec=1200)
+
+
+def exact_decimal(fr):
+    """Exact Decimal of a Fraction whose denominator is a power of two."""
+    k = fr.denominator.bit_length() - 1
+    if fr.denominator != 1 << k:
+        raise OracleError("not a dyadic rational")
+    return _BIGCTX.multiply(Decimal(fr.numerator * 5 ** k), Decimal(1).scaleb(-k, _BIGCTX))
+
+
+MIDPOINT_KINDS = ("exact", "nearest-D", "above-D", "below-D", "plus-eps", "minus-eps")
+
+
+def midpoint_literal(r, dbl):
+    """A decimal literal at, or within 1e-17..1e-29 (relative) of, the midpoint of two adjacent floats/doubles.
+    Such literals separate a single correct rounding from text->double->float double rounding and from
+    truncating conversions. Returns (literal, kind)."""
+    if dbl:
+        bits = (r.randrange(1023 - 150, 1023 + 150) << 52) | r.getrandbits(52)
+        if r.random() < 0.2:
+            bits |= (1 << 52) - 1 if r.random() < 0.5 else 0
+            bits &= ~((1 << 52) - 1) | ((1 << 52) - 1 if bits & 1 else 0)
+        a = struct.unpack("<d", struct.pack("<Q", bits))[0]
+        b = struct.unpack("<d", struct.pack("<Q", bits + 1))[0]
+    else:
+        bits = (r.randrange(127 - 50, 127 + 60) << 23) | r.getrandbits(23)
+        if r.random() < 0.2:
+            bits = (bits & ~0x7FFFFF) | r.choice((0, 1, 0x7FFFFE, 0x7FFFFF, 0x400000))
+        a = struct.unpack("<f", struct.pack("<I", bits))[0]
+        b = struct.unpack("<f", struct.pack("<I", bits + 1))[0]
+    m = exact_decimal((Fraction(a) + Fraction(b)) / 2)
+    kind = r.choice(MIDPOINT_KINDS)
+    D = r.randrange(17, 31)
+    if kind == "exact":
+        d = m
+    elif kind == "nearest-D":
+        d = decimal.Context(prec=D, rounding=decimal.ROUND_HALF_EVEN).plus(m)
+    elif kind == "above-D":
+        d = decimal.Context(prec=D, rounding=decimal.ROUND_UP).plus(m)
+    elif kind == "below-D":
+        d = decimal.Context(prec=D, rounding=decimal.ROUND_DOWN).plus(m)
+    else:
+        k = r.randrange(17, 29)
+        eps = Decimal(1).scaleb(-k)
+        f = (1 + eps) if kind == "plus-eps" else (1 - eps)
+        d = decimal.Context(prec=30, rounding=decimal.ROUND_DOWN if kind == "plus-eps" else decimal.ROUND_UP).plus(_BIGCTX.multiply(m, f))
+    if r.random() < 0.5:
+        d = -d
+    lit = format(d, "f") if r.random() < 0.6 else format(d, "e")
+    return lit, kind
 
 
 def f64_bytes(text, big):
@@ -324,12 +404,19 @@ class TextBuilder:
 
     def floating(self):
         dbl = self.r.random() < 0.5
-        lit = self._float_literal(dbl)
+        suffix = ""
+        if self.r.random() < 0.3:
+            lit, kind = midpoint_literal(self.r, dbl)
+            suffix = "-midpoint"
+            self.items.add("midpoint:%s:%s" % ("double" if dbl else "float", kind))
+        else:
+            lit = self._float_literal(dbl)
+        libc_selfcheck(lit, dbl)
         self.text.extend((b"%%" if dbl else b"%") + lit.encode())
         if dbl:
-            self.emit(f64_bytes(lit, self.big), "double")
+            self.emit(f64_bytes(lit, self.big), "double" + suffix)
         else:
-            self.emit(f32_bits(lit).to_bytes(4, "big" if self.big else "little"), "float")
+            self.emit(f32_bits(lit).to_bytes(4, "big" if self.big else "little"), "float" + suffix)
         self.ws(True)
 
     def line_comment(self, last):
@@ -383,7 +470,10 @@ FIXED_TEXTS = [
     # the documented example of the unit test, and small single-construct texts
     b"/* omit 01 02 */ 03 ?04? $ ##30 $ ##127 ?\"dark\"? ###-1 'cold' %-1.667 %%-2.667",
     b"", b" ", b"00", b"\"\"", b"''", b"\"\\\\\"", b"\"a\\\\b\"", b"'\\\\'", b"$ 'A' $ 'A'", b"#1 ##1 ###1 ####1 ",
-    b"$ #1 ##1 ###1 ####1 ", b"%1 %%1 $ %1 %%1 ", b"? 00 ? 00", b"// only a comment", b"/* only a comment */",
+    b"$ #1 ##1 ###1 ####1 ", b"%1 %%1 $ %1 %%1 ",
+    # just above the midpoint of 1 and 1+2^-23: a text->double->float conversion rounds it down to 1.0
+    b"%1.00000005960464478 $ %1.00000005960464478 ", b"%-1.0000001788139343262 %1.0000001788139343261 ",
+    b"%%1.00000000000000011102230246251565404236316680908203126 %%1.00000000000000011102230246251565404236316680908203124 ", b"? 00 ? 00", b"// only a comment", b"/* only a comment */",
 ]
 
 
@@ -945,6 +1035,7 @@ def stage_fuzz(ctx, st):
 if __name__ == "__main__":
     # self-test of the oracle pieces:  python3 -m vf.oracles.c09
     assert f32_bits("-1.667") == 0xBFD56042 and f32_bits("1") == 0x3F800000 and f32_bits("1e-45") == 1
+    assert f32_bits("1.00000005960464478") == 0x3F800001 and f32_bits("1.000000059604644775390625") == 0x3F800000
     assert f32_bits("16777217") == 0x4B800000 and f32_bits("3.5e38") == 0x7F800000 and f32_bits("-0.0") == 0x80000000
     d, m = ref_parse(FIXED_TEXTS[0])
     assert d.hex() == "0304001e7f006461726bffffffff63006f006c0064004260d5bfbc749318045605c0", d.hex()
